@@ -62,6 +62,21 @@ func mapProtocol(r *Run, prop string, idx int) *core.Report {
 			}
 		}
 	}
+	// P15: every return of the compute core does what its operation's sequential contract says (result roles and map
+	// effect per class and mode - in particular a load-if-exists call that finds the key neither calls the function
+	// nor writes): restated from C11.L1 for this map's core and wrappers
+	{
+		tmp := core.NewReport(prop)
+		c11L1(r, tmp)
+		sub := core.NewReport(prop)
+		for _, o := range tmp.Obs {
+			if strings.Contains(o.Construct, "(*"+mm.Name+")") {
+				sub.Obs = append(sub.Obs, o)
+			}
+		}
+		n15 := borrow(rep, sub, prop+".P15", "C11.L1")
+		rep.MinCount(prop+".P15", "premise obligations (operation contract of the compute core)", n15, 8)
+	}
 	if idx == 1 {
 		// P13 (generic keys): keys that compare equal hash equal under every seed (restated from C10)
 		n13 := borrow(rep, C10(r), prop+".P13", "C10.H")
